@@ -47,14 +47,21 @@ func fmtEvs(evs []ev, tagged bool) string {
 }
 
 // runReload: real ReloadHAProxyRateLimiter + real WorkQueue[any]
-func runReload(t *testing.T, interval time.Duration, arrivals []ev) (runs []ev) {
+// The k-th invocation of the sync callback (a "run") records its START and then takes durs[k] of
+// virtual time (0 beyond the list): the single worker is occupied until then, after which
+// WorkQueue.process calls Forget and Done.
+func runReload(t *testing.T, interval time.Duration, arrivals []ev, durs []time.Duration) (runs []ev) {
 	synctest.Test(t, func(t *testing.T) {
 		var mu sync.Mutex
 		start := time.Now()
 		q := workqueue.New(func(ctx context.Context, _ any) error {
 			mu.Lock()
+			k := len(runs)
 			runs = append(runs, ev{t: time.Since(start)})
 			mu.Unlock()
+			if k < len(durs) && durs[k] > 0 {
+				time.Sleep(durs[k])
+			}
 			return nil
 		}, workqueue.ReloadHAProxyRateLimiter(interval))
 		ctx, cancel := context.WithCancel(context.Background())
@@ -67,7 +74,7 @@ func runReload(t *testing.T, interval time.Duration, arrivals []ev) (runs []ev) 
 			q.Add(nil)
 			synctest.Wait()
 		}
-		time.Sleep(100 * interval)
+		time.Sleep(100*interval + total(durs))
 		synctest.Wait()
 		cancel()
 		<-done
@@ -76,14 +83,18 @@ func runReload(t *testing.T, interval time.Duration, arrivals []ev) (runs []ev) 
 }
 
 // runIngress: real IngressReconcilerRateLimiter + real WorkQueue[bool] (item = fullsync flag)
-func runIngress(t *testing.T, rate float64, wait time.Duration, arrivals []ev) (runs []ev) {
+func runIngress(t *testing.T, rate float64, wait time.Duration, arrivals []ev, durs []time.Duration) (runs []ev) {
 	synctest.Test(t, func(t *testing.T) {
 		var mu sync.Mutex
 		start := time.Now()
 		q := workqueue.New(func(ctx context.Context, full bool) error {
 			mu.Lock()
+			k := len(runs)
 			runs = append(runs, ev{t: time.Since(start), full: full})
 			mu.Unlock()
+			if k < len(durs) && durs[k] > 0 {
+				time.Sleep(durs[k])
+			}
 			return nil
 		}, workqueue.IngressReconcilerRateLimiter[bool](rate, wait))
 		ctx, cancel := context.WithCancel(context.Background())
@@ -96,7 +107,7 @@ func runIngress(t *testing.T, rate float64, wait time.Duration, arrivals []ev) (
 			q.Add(a.full)
 			synctest.Wait()
 		}
-		time.Sleep(time.Duration(100*float64(time.Second)/rate) + 100*wait)
+		time.Sleep(time.Duration(100*float64(time.Second)/rate) + 100*wait + total(durs))
 		synctest.Wait()
 		cancel()
 		<-done
@@ -107,17 +118,98 @@ func runIngress(t *testing.T, rate float64, wait time.Duration, arrivals []ev) (
 var out *bufio.Writer
 var stats = map[string]int{}
 
+func total(durs []time.Duration) (sum time.Duration) {
+	for _, d := range durs {
+		if d > 0 {
+			sum += d
+		}
+	}
+	return sum
+}
+
+func fmtDurs(durs []time.Duration) string {
+	if len(durs) == 0 {
+		return "-"
+	}
+	s := make([]string, len(durs))
+	for i, d := range durs {
+		s[i] = strconv.FormatInt(int64(d), 10)
+	}
+	return strings.Join(s, ",")
+}
+
+func parseDurs(s string) []time.Duration {
+	var res []time.Duration
+	if s == "-" || s == "" {
+		return nil
+	}
+	for _, p := range strings.Split(s, ",") {
+		n, _ := strconv.ParseInt(p, 10, 64)
+		res = append(res, time.Duration(n))
+	}
+	return res
+}
+
+// class of a duration relative to the interval (statistics)
+func durClass(durs []time.Duration, interval time.Duration) string {
+	c := "zero"
+	for _, d := range durs {
+		switch {
+		case d >= interval:
+			return "ge_interval"
+		case d > 0:
+			c = "lt_interval"
+		}
+	}
+	return c
+}
+
+// old line format (instantaneous runs): `C13 reload <interval> <arrivals>`
 func emitReload(t *testing.T, interval time.Duration, arr []ev) {
-	runs := runReload(t, interval, arr)
+	runs := runReload(t, interval, arr, nil)
 	fmt.Fprintf(out, "C13 reload %d %s => %s\n", int64(interval), fmtEvs(arr, false), fmtEvs(runs, false))
 	stats[fmt.Sprintf("reload_arrivals_%d", len(arr))]++
 }
 
+// `C13 reloadd <interval> <durations> <arrivals>`: the k-th run takes durations[k]
+func emitReloadD(t *testing.T, interval time.Duration, durs []time.Duration, arr []ev) {
+	runs := runReload(t, interval, arr, durs)
+	fmt.Fprintf(out, "C13 reloadd %d %s %s => %s\n", int64(interval), fmtDurs(durs), fmtEvs(arr, false), fmtEvs(runs, false))
+	stats[fmt.Sprintf("reloadd_arrivals_%d", len(arr))]++
+	stats["reloadd_durations_"+durClass(durs, interval)]++
+}
+
 func emitIngress(t *testing.T, rate float64, wait time.Duration, arr []ev) {
-	runs := runIngress(t, rate, wait, arr)
+	runs := runIngress(t, rate, wait, arr, nil)
 	delta := time.Duration(float64(time.Second) / rate)
 	fmt.Fprintf(out, "C13 ingress %d %d %s => %s\n", int64(delta), int64(wait), fmtEvs(arr, true), fmtEvs(runs, true))
 	stats[fmt.Sprintf("ingress_arrivals_%d", len(arr))]++
+}
+
+// `C13 ingressd <delta> <wait> <durations> <arrivals>`
+func emitIngressD(t *testing.T, rate float64, wait time.Duration, durs []time.Duration, arr []ev) {
+	runs := runIngress(t, rate, wait, arr, durs)
+	delta := time.Duration(float64(time.Second) / rate)
+	fmt.Fprintf(out, "C13 ingressd %d %d %s %s => %s\n", int64(delta), int64(wait), fmtDurs(durs), fmtEvs(arr, true), fmtEvs(runs, true))
+	stats[fmt.Sprintf("ingressd_arrivals_%d", len(arr))]++
+	stats["ingressd_durations_"+durClass(durs, delta)]++
+}
+
+// all tuples of length n over the set
+func tuples(set []time.Duration, n int, f func([]time.Duration)) {
+	cur := make([]time.Duration, n)
+	var rec func(i int)
+	rec = func(i int) {
+		if i == n {
+			f(append([]time.Duration(nil), cur...))
+			return
+		}
+		for _, d := range set {
+			cur[i] = d
+			rec(i + 1)
+		}
+	}
+	rec(0)
 }
 
 // subsets of the grid with at most k elements, in increasing order
@@ -169,6 +261,15 @@ func TestC13(t *testing.T) {
 				n, _ := strconv.ParseInt(f[2], 10, 64)
 				emitReload(t, time.Duration(n), parseEvs(f[3]))
 			}
+			if len(f) == 5 && f[0] == "C13" && f[1] == "reloadd" {
+				n, _ := strconv.ParseInt(f[2], 10, 64)
+				emitReloadD(t, time.Duration(n), parseDurs(f[3]), parseEvs(f[4]))
+			}
+			if len(f) == 6 && f[0] == "C13" && f[1] == "ingressd" {
+				d, _ := strconv.ParseInt(f[2], 10, 64)
+				w, _ := strconv.ParseInt(f[3], 10, 64)
+				emitIngressD(t, float64(time.Second)/float64(d), time.Duration(w), parseDurs(f[4]), parseEvs(f[5]))
+			}
 			if len(f) == 5 && f[0] == "C13" && f[1] == "ingress" {
 				d, _ := strconv.ParseInt(f[2], 10, 64)
 				w, _ := strconv.ParseInt(f[3], 10, 64)
@@ -181,6 +282,17 @@ func TestC13(t *testing.T) {
 	// corpus (minimised past failures): arrivals 0s,5s,11s with interval 10s reloaded at 0,10,11
 	emitReload(t, 10*S, []ev{{t: 0}, {t: 5 * S}, {t: 11 * S}})
 	emitReload(t, 10*S, []ev{{t: 0}, {t: 5 * S}, {t: 7 * S}, {t: 11 * S}, {t: 12 * S}})
+	// corpus, runs with a duration:
+	// (seed C13e) a notification DURING a reload on two consecutive reloads: Forget re-basing `last` on the end
+	// of the reload loses the scheduled slot, reloads at 0,10,15 (5s apart); the unchanged code reloads at 0,10,20
+	emitReloadD(t, 10*S, []time.Duration{5 * S, 5 * S}, []ev{{t: 0}, {t: 1 * S}, {t: 11 * S}})
+	emitReloadD(t, 10*S, []time.Duration{7 * time.Millisecond, 7 * time.Millisecond}, []ev{{t: 0}, {t: 3 * time.Millisecond}, {t: 10*S + 2*time.Millisecond}})
+	// (observation, unchanged code, outside the judged domain) a reload longer than the interval: the item becomes
+	// ready while it is processed, is re-queued at Done and starts at 15 while `last` stays 10: next start at 20
+	emitReloadD(t, 10*S, []time.Duration{15 * S}, []ev{{t: 0}, {t: 1 * S}, {t: 16 * S}})
+	// (observation, unchanged code, outside the judged domain) both kinds share one worker: the full sync waits 3s for
+	// the partial one (starts 13) and its next slot is still 20
+	emitIngressD(t, 0.1, 0, []time.Duration{0, 3 * S}, []ev{{t: 0}, {t: 1 * S}, {t: 2 * S, full: true}, {t: 14 * S, full: true}})
 	// exhaustive small scope around the interval boundary
 	grid := []time.Duration{0, 5 * S, 10*S - 1, 10*S + 1, 11 * S, 15 * S, 20*S - 3, 20*S + 3, 21 * S, 25 * S, 30*S + 7, 45 * S}
 	k := 4
@@ -193,6 +305,41 @@ func TestC13(t *testing.T) {
 			arr[i] = ev{t: x}
 		}
 		emitReload(t, 10*S, arr)
+	})
+	// runs with a duration: arrivals during / just after a run and around the scheduled slot x durations of the
+	// first three runs in {0, small, interval/2, interval-1}
+	ms := time.Millisecond
+	gridD := []time.Duration{0, 3 * ms, 1 * S, 5*S + 1*ms, 10*S - 1, 10*S + 1, 10*S + 2*ms, 11 * S, 15*S + 3, 20*S - 3, 20*S + 3*ms, 25 * S}
+	dset := []time.Duration{0, 7 * ms, 5 * S, 10*S - 1}
+	kd := 3
+	if tier == "thorough" {
+		kd = 4
+	}
+	subsets(gridD, kd, func(ts []time.Duration) {
+		arr := make([]ev, len(ts))
+		for i, x := range ts {
+			arr[i] = ev{t: x}
+		}
+		tuples(dset, min(len(ts), 3), func(durs []time.Duration) {
+			if total(durs) == 0 {
+				emitReload(t, 10*S, arr)
+			} else {
+				emitReloadD(t, 10*S, durs, arr)
+			}
+		})
+	})
+	// runs at least as long as the interval (outside the judged domain, inside the correspondence)
+	gridL := []time.Duration{0, 1 * S, 9 * S, 12 * S, 16 * S, 21 * S, 27 * S, 33 * S}
+	subsets(gridL, 3, func(ts []time.Duration) {
+		arr := make([]ev, len(ts))
+		for i, x := range ts {
+			arr[i] = ev{t: x}
+		}
+		tuples([]time.Duration{0, 10 * S, 15*S + 7*ms, 25*S + 7*ms}, min(len(ts), 2), func(durs []time.Duration) {
+			if total(durs) > 0 {
+				emitReloadD(t, 10*S, durs, arr)
+			}
+		})
 	})
 	// ingress limiter: rate 0.1/s => delta 10s, wait 200ms; both items over a smaller grid
 	g2 := []time.Duration{0, 100 * time.Millisecond, 5 * S, 10*S + 1, 10*S + 300*time.Millisecond, 12 * S, 21 * S, 40 * S}
@@ -208,6 +355,16 @@ func TestC13(t *testing.T) {
 				arr[i] = ev{t: x, full: mask&(1<<i) != 0}
 			}
 			emitIngress(t, 0.1, 200*time.Millisecond, arr)
+			// one worker for both kinds: durations of the first two (thorough: three) runs
+			nd := 2
+			if tier == "thorough" {
+				nd = 3
+			}
+			tuples(dset, min(n, nd), func(durs []time.Duration) {
+				if total(durs) > 0 {
+					emitIngressD(t, 0.1, 200*time.Millisecond, durs, arr)
+				}
+			})
 		}
 	})
 	// random bursts and gaps, several interval settings
@@ -253,6 +410,73 @@ func TestC13(t *testing.T) {
 			rate := float64(time.Second) / float64(interval)
 			wait := gen.Pick(r, []time.Duration{0, time.Millisecond, 200 * time.Millisecond, interval / 2, interval, 2 * interval})
 			emitIngress(t, rate, wait, arr)
+		}
+	}
+	// random arrival patterns with run durations (own stream: the instantaneous cases above are unchanged)
+	rd := gen.New(seed ^ 0x5bd1e995c13d)
+	nd := 3000
+	if tier == "thorough" {
+		nd = 60000
+	}
+	for i := 0; i < nd; i++ {
+		cnt := rd.Range(2, 9)
+		unit := gen.Pick(rd, []time.Duration{time.Millisecond, 100 * time.Millisecond, S})
+		interval := time.Duration(rd.Range(2, 30)) * unit
+		long := rd.Chance(1, 6) // some run may be longer than the interval
+		pick := func() time.Duration {
+			switch rd.Intn(8) {
+			case 0:
+				return 0
+			case 1:
+				return time.Duration(rd.Range(1, 2000))
+			case 2:
+				return interval / 2
+			case 3:
+				return interval - 1
+			case 4:
+				if long {
+					return interval + time.Duration(rd.Range(0, int(2*interval/unit)))*unit/2 + time.Duration(rd.Range(0, 5))
+				}
+			}
+			return time.Duration(rd.Range(1, int(interval/unit)))*unit/2 + time.Duration(rd.Range(0, 5))
+		}
+		var durs []time.Duration
+		for j := 0; j < cnt; j++ {
+			durs = append(durs, pick())
+		}
+		// arrivals: relative to the previous arrival, inside the expected run, around the next slot, idle gaps
+		var arr []ev
+		cur := time.Duration(0)
+		for j := 0; j < cnt; j++ {
+			switch rd.Intn(6) {
+			case 0: // burst
+				cur += time.Duration(rd.Range(1, 1000))
+			case 1: // around a multiple of the interval
+				m := (cur/interval + 1) * interval
+				cur = m + time.Duration(rd.Range(-3, 3))*2 + 1
+			case 2: // idle gap
+				cur += interval*time.Duration(rd.Range(1, 3)) + time.Duration(rd.Range(1, 999))
+			case 3: // shortly after a multiple of the interval: during a run that started there
+				m := (cur/interval + 1) * interval
+				cur = m + 1 + time.Duration(rd.Range(0, int(durs[j]/2)))
+			default:
+				cur += time.Duration(rd.Range(1, int(2*interval/unit)))*unit/2 + time.Duration(rd.Range(0, 3))
+			}
+			if len(arr) > 0 && cur <= arr[len(arr)-1].t {
+				cur = arr[len(arr)-1].t + 1
+			}
+			arr = append(arr, ev{t: cur})
+		}
+		if rd.Chance(3, 5) {
+			emitReloadD(t, interval, durs, arr)
+		} else {
+			kind := rd.Intn(4) // 0: partial only, 1: full only, else mixed
+			for j := range arr {
+				arr[j].full = kind == 1 || (kind >= 2 && rd.Chance(1, 3))
+			}
+			rate := float64(time.Second) / float64(interval)
+			wait := gen.Pick(rd, []time.Duration{0, time.Millisecond, 200 * time.Millisecond, interval / 2, interval, 2 * interval})
+			emitIngressD(t, rate, wait, durs, arr)
 		}
 	}
 	keys := make([]string, 0, len(stats))
